@@ -389,3 +389,66 @@ def blocks_cursor(R, ctx, rid):
     R.floor(rid, "in-place steps of the cursor", len(steps), 1)
     for k, (i, st, b) in enumerate(steps):
         R.ob(rid, fn, "cursor-step#%d" % k, b == ("k", 1), "*idx += 1" if b == ("k", 1) else "*idx += %s" % (b,), "%s:%s" % (fn.file, st["line"]))
+
+
+def gc_scope(R, ctx, rid):
+    Y = ctx.yrs
+    fn = Y.fn("yrs::gc::GCCollector::mark_in_scope")
+    v = FnView(fn)
+    cfg = fn.cfg()
+    R.rule(rid, "R-ORDER+R-GUARD a scoped collection stays inside its scope: in GCCollector::mark_in_scope (the automatic collector "
+                "and TransactionMut::gc(Some(delete_set))) an item is handed to Item::gc only where the END of its block — the "
+                "running clock after `start += block.len()` — was compared with the end of the delete range and is not beyond it: "
+                "the increment dominates the comparison inside the loop round, the comparison is `> range.end` refused. Testing "
+                "the block's start instead collects a tombstone that begins inside the range and reaches past it — squashed "
+                "tombstones straddle the edge of a snapshot's delete set, and content visible at the snapshot is destroyed")
+    gcs = fn.calls_to("yrs::block::Item::gc")
+    R.floor(rid, "Item::gc calls in mark_in_scope", len(gcs), 1)
+    lens = [c for c in fn.calls() if re.search(r"Block::len$", c.name)]
+    incs = []
+    for i, j, st in fn.stmts():
+        rv = st["rv"]
+        if str(rv.get("bin", "")).startswith("Add") and cfg.in_loop(i):
+            b = mir_root(fn, rv["b"])
+            a = mir_root(fn, rv["a"])
+            if any(("local", c.dest) in (a, b) for c in lens if isinstance(c.dest, int)):
+                incs.append(i)
+    R.floor(rid, "running-clock increments by the block length", len(incs), 1)
+    for cs, site in ordinal_sites(gcs):
+        ok = False
+        why = "no comparison with the end of the delete range decides the call"
+        for l in v.guards(cs.bb):
+            sw = fn.blocks[l.bb]["t"].get("switch")
+            sd = mir_def(fn, sw) if sw else None
+            if not (sd and sd[0] == "stmt" and sd[1].get("bin") in ("Gt", "Ge", "Lt", "Le")) or not isinstance(l.polarity, bool):
+                continue
+            ka, kb = mir_vkey(fn, sd[1]["a"]), mir_vkey(fn, sd[1]["b"])
+            end_b = isinstance(kb, tuple) and kb and kb[0] == "proj" and str(kb[2][-1]).endswith("Range.end")
+            end_a = isinstance(ka, tuple) and ka and ka[0] == "proj" and str(ka[2][-1]).endswith("Range.end")
+            if not (end_a or end_b):
+                continue
+            op, pol = sd[1]["bin"], l.polarity
+            # block end <= range end  ==  not (run > end)  ==  (end >= run)
+            within = (end_b and ((op == "Gt" and pol is False) or (op == "Le" and pol is True))) or \
+                     (end_a and ((op == "Lt" and pol is False) or (op == "Ge" and pol is True)))
+            after_inc = any(cfg.dominates(inc, l.bb) and l.bb in loop_blocks(fn, _loop_header_of(fn, inc)) for inc in incs)
+            ok = within and after_inc
+            why = "decided by `%s %s range.end` is %s; compared after the increment by the block length: %s" % ("run" if end_b else "range.end", op, pol, after_inc)
+            if ok:
+                break
+        R.ob(rid, fn, "within-scope:" + site, ok, "collected only where the block's end is not beyond the range's end" if ok else
+             "an item is collected although its block may reach past the delete range (%s)" % why, cs.loc())
+
+
+def _loop_header_of(fn, bb):
+    """the header of the innermost natural loop containing bb (a block all of whose in-loop predecessors it dominates)."""
+    cfg = fn.cfg()
+    best = None
+    for h in range(len(fn.blocks)):
+        if fn.blocks[h].get("cleanup"):
+            continue
+        if any(cfg.dominates(h, u) for u in cfg.pred[h]):
+            body = loop_blocks(fn, h)
+            if bb in body and (best is None or len(body) < len(loop_blocks(fn, best))):
+                best = h
+    return best if best is not None else bb
